@@ -125,9 +125,9 @@ PROPS = {
                            'The strictness of the boundary comparison (< vs <=) at the nanosecond is not distinguishable by the harness (real clock).',
                 level_note=LEVEL_NOTE),
     'C03': dict(level='proof', module='EscProofs.P.C03',
-                streams=dict(quick=[('scenario', ['-dir', '@ROOT/corpus/C03']), ('hist', ['-n', 400, '-scans', 10]), ('hist', ['-n', 200, '-scans', 10, '-focus', 'autodisc']), ('hist', ['-n', 200, '-scans', 10, '-focus', 'restore'])],
-                             thorough=[('scenario', ['-dir', '@ROOT/corpus/C03']), ('hist', ['-n', 20000, '-scans', 12]), ('hist', ['-n', 10000, '-scans', 12, '-focus', 'autodisc']), ('hist', ['-n', 10000, '-scans', 12, '-focus', 'restore'])],
-                             search=[('hist', ['-n', 1500, '-scans', 12]), ('hist', ['-n', 1500, '-scans', 12, '-focus', 'autodisc']), ('hist', ['-n', 1500, '-scans', 12, '-focus', 'restore'])]),
+                streams=dict(quick=[('scenario', ['-dir', '@ROOT/corpus/C03']), ('hist', ['-n', 400, '-scans', 10]), ('hist', ['-n', 200, '-scans', 10, '-focus', 'autodisc']), ('hist', ['-n', 200, '-scans', 10, '-focus', 'restore']), ('hist', ['-n', 200, '-scans', 10, '-focus', 'rotate'])],
+                             thorough=[('scenario', ['-dir', '@ROOT/corpus/C03']), ('hist', ['-n', 20000, '-scans', 12]), ('hist', ['-n', 10000, '-scans', 12, '-focus', 'autodisc']), ('hist', ['-n', 10000, '-scans', 12, '-focus', 'restore']), ('hist', ['-n', 8000, '-scans', 12, '-focus', 'rotate'])],
+                             search=[('hist', ['-n', 1500, '-scans', 12]), ('hist', ['-n', 1500, '-scans', 12, '-focus', 'autodisc']), ('hist', ['-n', 1500, '-scans', 12, '-focus', 'restore']), ('hist', ['-n', 1500, '-scans', 12, '-focus', 'rotate'])]),
                 aspects=['hist:taintadds', 'hist:untaints'], monitors=['C03'],
                 theorems=['Esc.P.C03_floor', 'Esc.P.C03_below_min', 'Esc.P.C03_restore', 'Esc.P.C03_history'],
                 technique='Lean 4 theorem (journal shape + counting lemma for the taint loop) + differential correspondence and runtime monitor',
@@ -136,9 +136,9 @@ PROPS = {
                            'Tie: hist correspondence on taint-adding and taint-removing updates; the same predicate monitored on observed journals.',
                 level_note=LEVEL_NOTE),
     'C04': dict(level='proof', module='EscProofs.P.Bounds',
-                streams=dict(quick=[('scenario', ['-dir', '@ROOT/corpus/C04']), ('hist', ['-n', 400, '-scans', 10]), ('hist', ['-n', 250, '-scans', 10, '-focus', 'up']), ('awsops', ['-n', 2000]), ('fleetops', ['-n', 96]), ('hist', ['-n', 8, '-scans', 6, '-focus', 'fleet'])],
-                             thorough=[('scenario', ['-dir', '@ROOT/corpus/C04']), ('hist', ['-n', 20000, '-scans', 12]), ('hist', ['-n', 10000, '-scans', 12, '-focus', 'up']), ('awsops', ['-n', 100000]), ('fleetops', ['-n', 1600]), ('hist', ['-n', 200, '-scans', 8, '-focus', 'fleet'])],
-                             search=[('hist', ['-n', 1500, '-scans', 12]), ('hist', ['-n', 1500, '-scans', 12, '-focus', 'up']), ('awsops', ['-n', 20000]), ('fleetops', ['-n', 300]), ('hist', ['-n', 40, '-scans', 8, '-focus', 'fleet'])]),
+                streams=dict(quick=[('scenario', ['-dir', '@ROOT/corpus/C04']), ('hist', ['-n', 400, '-scans', 10]), ('hist', ['-n', 250, '-scans', 10, '-focus', 'up']), ('awsops', ['-n', 2000]), ('fleetops', ['-n', 96]), ('hist', ['-n', 8, '-scans', 6, '-focus', 'fleet']), ('hist', ['-n', 16, '-scans', 6, '-focus', 'up', '-slow'])],
+                             thorough=[('scenario', ['-dir', '@ROOT/corpus/C04']), ('hist', ['-n', 20000, '-scans', 12]), ('hist', ['-n', 10000, '-scans', 12, '-focus', 'up']), ('awsops', ['-n', 100000]), ('fleetops', ['-n', 1600]), ('hist', ['-n', 200, '-scans', 8, '-focus', 'fleet']), ('hist', ['-n', 160, '-scans', 6, '-focus', 'up', '-slow'])],
+                             search=[('hist', ['-n', 1500, '-scans', 12]), ('hist', ['-n', 1500, '-scans', 12, '-focus', 'up']), ('awsops', ['-n', 20000]), ('fleetops', ['-n', 300]), ('hist', ['-n', 40, '-scans', 8, '-focus', 'fleet']), ('hist', ['-n', 32, '-scans', 6, '-focus', 'up', '-slow'])]),
                 aspects=['hist:resize', 'cached-desired'], monitors=['C04'],
                 theorems=['Esc.P.C04_bound', 'Esc.P.C04_clamp_exact', 'Esc.P.C04_history', 'Esc.P.bounds_history', 'Esc.P.C04_history_configured', 'Esc.P.runOnce_fresh'],
                 technique='Lean 4 theorem (walk of the journal with the running desired size; exact characterisation of IncreaseSize requests) + differential correspondence and runtime monitor',
@@ -238,10 +238,11 @@ PROPS = {
                            'ValidateNodeGroup; decode runs every key as YAML and JSON through the real decoder; startup runs the built program (cmd/main.go, no build tag) on generated files of 1-4 node groups (duplicate names, invalid entries in any position) and compares "got past setupNodeGroups" with "every entry passes the translated validator"; an independent monitor re-checks Safe on every accepted configuration.',
                 level_note=LEVEL_NOTE + ' YAML parsing itself (yaml.NewYAMLOrJSONDecoder) and time.ParseDuration are trusted library code; durations reach the model as the values the accessors returned.'),
     'C17': dict(level='proof', module='EscProofs.P.C17',
-                streams=dict(quick=[('awsops', ['-n', 3000]), ('fleetops', ['-n', 96])],
-                             thorough=[('awsops', ['-n', 200000]), ('fleetops', ['-n', 1600])],
-                             search=[('awsops', ['-n', 20000]), ('fleetops', ['-n', 300])]),
-                aspects=['journal', 'outcome'], monitors=['C17'],
+                # controller-level histories too: what the provider is asked, and from which description of the group (refresh failures: 5 s of real sleep each)
+                streams=dict(quick=[('awsops', ['-n', 3000]), ('fleetops', ['-n', 96]), ('hist', ['-n', 250, '-scans', 10, '-focus', 'up']), ('hist', ['-n', 16, '-scans', 6, '-focus', 'up', '-slow'])],
+                             thorough=[('awsops', ['-n', 200000]), ('fleetops', ['-n', 1600]), ('hist', ['-n', 10000, '-scans', 12, '-focus', 'up']), ('hist', ['-n', 160, '-scans', 6, '-focus', 'up', '-slow'])],
+                             search=[('awsops', ['-n', 20000]), ('fleetops', ['-n', 300]), ('hist', ['-n', 1500, '-scans', 12, '-focus', 'up']), ('hist', ['-n', 32, '-scans', 6, '-focus', 'up', '-slow'])]),
+                aspects=['journal', 'outcome', 'hist:resize'], monitors=['C17'],
                 theorems=['Esc.P.C17_increase', 'Esc.P.C17_reject', 'Esc.P.C17_never_lowers', 'Esc.P.C17_attach_partition', 'Esc.P.C17_batch_limits',
                           'Esc.P.mkFleetReq_ok'],
                 technique='Lean 4 theorem over the model of aws.NodeGroup.IncreaseSize (all deltas, bounds, fleet sizes, environments; batch constants regenerated from source) + differential correspondence on full AWS call arguments + monitor',
